@@ -117,6 +117,42 @@ pub open spec fn declared_symbol(s: asg::Stmt) -> Option<SymbolIdResult> {
         _ => None,
     }
 }
+/// C06: the statements that have a translation (the others are evaluated: include, version line, annotation)
+pub open spec fn translated(s: synast::Stmt) -> bool { !(s is Include || s is VersionString || s is AnnotationStatement) }
+/// C06: a block of the graph holds exactly the translations of its statements, in order: one graph statement of the right kind
+/// per translated source statement, none for the others
+pub open spec fn block_ok(ss: Seq<synast::Stmt>, r: Seq<asg::Stmt>) -> bool
+    decreases ss.len()
+{
+    if ss.len() == 0 { r.len() == 0 }
+    else if translated(ss.last()) { r.len() > 0 && stmt_kind_ok(ss.last(), Some(r.last())) && block_ok(ss.drop_last(), r.drop_last()) }
+    else { block_ok(ss.drop_last(), r) }
+}
+/// C06: the body of an if / else / while / for: a braced block holds the translations of its statements; a single statement
+/// becomes a block of that one statement (an empty one if the statement has no translation)
+pub open spec fn bors_ok(b: oq3_syntax::BlockOrStmt, r: asg::Block) -> bool {
+    match b {
+        oq3_syntax::BlockOrStmt::BlockExpr(be) => block_ok(be.sp_statements(), r.statements@),
+        oq3_syntax::BlockOrStmt::Stmt(s) => if translated(s) { r.statements@.len() == 1 && stmt_kind_ok(s, Some(r.statements@[0])) } else { r.statements@.len() == 0 },
+    }
+}
+/// C06 / C05: if / else branches and loop bodies are attached to their statement in their roles
+pub open spec fn bodies_ok(s: synast::Stmt, r: Option<asg::Stmt>) -> bool {
+    match s {
+        synast::Stmt::IfStmt(i) => r is Some && r->Some_0 is If && ({
+            let g = r->Some_0->If_0;
+            &&& bors_ok(i.sp_true_body_block_or_stmt(), g.then_branch)
+            &&& (g.else_branch is Some) == (i.sp_false_body_block_or_stmt() is Some)
+            &&& (g.else_branch is Some ==> bors_ok(i.sp_false_body_block_or_stmt()->Some_0, g.else_branch->Some_0))
+        }),
+        synast::Stmt::WhileStmt(w) => r is Some && r->Some_0 is While && bors_ok(w.sp_block_or_stmt(), r->Some_0->While_0.loop_body),
+        synast::Stmt::ForStmt(f) => r is Some && r->Some_0 is ForStmt && bors_ok(f.sp_block_or_stmt(), r->Some_0->ForStmt_0.loop_body),
+        // gate and subroutine bodies
+        synast::Stmt::Gate(g) => r is Some && r->Some_0 is GateDefinition && (g.sp_body() is Some ==> block_ok(g.sp_body()->Some_0.sp_statements(), r->Some_0->GateDefinition_0.block.statements@)),
+        synast::Stmt::Def(d) => r is Some && r->Some_0 is DefStmt && (d.sp_body() is Some ==> block_ok(d.sp_body()->Some_0.sp_statements(), r->Some_0->DefStmt_0.block.statements@)),
+        _ => true,
+    }
+}
 /// C07: a classical declaration standing directly in a block (or at top level) binds -- or finds already bound -- its name in
 /// the scope of THAT block: the scope that is current where the statement stands
 pub open spec fn decl_bound(c: Context, s: synast::Stmt) -> bool {
